@@ -131,9 +131,56 @@ fn run_history<R: Reader<Cursor<Vec<u8>>>>(bytes: &[u8], hist: &[Opt]) -> Result
     Ok(out)
 }
 
+/// The header-row statement on the repository's own fixtures: the default read of a sheet is the model, every Row(n) read around
+/// its first and last used row must start at n iff data exists at or below n and agree with the default read below n; after
+/// returning to the default the first read comes back. Sheets larger than a million cells are skipped.
+fn corpus_header_rows(rep: &Report) {
+    let files = crate::props::corpus::fixtures(&crate::props::corpus::ALL);
+    let sheets = std::sync::atomic::AtomicU64::new(0);
+    files.par_iter().for_each(|(fname, bytes)| {
+        crate::engine::crumb::set_case(&format!("C08 fixture {fname}"));
+        let r = guarded(|| -> Vec<(String, String)> {
+            let mut bad = vec![];
+            let Ok(mut wb) = calamine::open_workbook_auto_from_rs(Cursor::new(bytes.clone())) else { return bad };
+            for name in wb.sheet_names() {
+                wb.with_header_row(HeaderRow::FirstNonEmptyRow);
+                let Ok(def) = wb.worksheet_range(&name) else { continue };
+                let (Some(s), Some(e)) = (def.start(), def.end()) else { continue };
+                if (e.0 - s.0 + 1) as u64 * (e.1 - s.1 + 1) as u64 > 1_000_000 || e.0 > 100_000 { continue; }
+                let mut g = Grid::new();
+                for (i, j, v) in def.used_cells() { g.insert((s.0 + i as u32, s.1 + j as u32), v.clone()); }
+                sheets.fetch_add(1, std::sync::atomic::Ordering::Relaxed);
+                let mut ns = vec![0u32, s.0, s.0 + 1, e.0, e.0 + 1];
+                if s.0 > 0 { ns.push(s.0 - 1); }
+                ns.sort(); ns.dedup();
+                for n in ns {
+                    wb.with_header_row(HeaderRow::Row(n));
+                    match wb.worksheet_range(&name) {
+                        Err(err) => bad.push((format!("error/{}", n_class(&g, n)), format!("sheet {name:?} under Row({n}): {err:?}"))),
+                        Ok(r) => if let Err((kind, detail)) = check_read(&r, &g, Opt::Row(n)) { bad.push((format!("{kind}/{}", n_class(&g, n)), format!("sheet {name:?} under Row({n}): {detail}"))); }
+                    }
+                }
+                wb.with_header_row(HeaderRow::FirstNonEmptyRow);
+                match wb.worksheet_range(&name) { Ok(again) if crate::model::sheet::range_digest(&again) == crate::model::sheet::range_digest(&def) => {}, other => bad.push(("default-after-option-change".into(), format!("sheet {name:?}: the default read after Row(n) reads differs from the first default read ({:?})", other.map(|r| (r.start(), r.end()))))) }
+            }
+            bad
+        });
+        rep.eval(1);
+        let replay = || Replay { json: json!({"fixture": fname}), files: vec![] };
+        match r {
+            Err(p) => { let site = normalise_site(p.rsplit(" @ ").next().unwrap_or("")); rep.fail(&format!("corpus/panic/{site}"), &format!("{fname}: panicked: {p}"), replay); }
+            Ok(bad) => { for (k, d) in &bad { rep.fail(&format!("corpus/{k}"), &format!("{fname}: {d}"), replay); } rep.case(hash_of(&("corpus", fname)), true, hash_of(&format!("{bad:?}"))); }
+        }
+        crate::engine::crumb::clear();
+    });
+    rep.extra("fixture_files", json!(files.len()));
+    rep.extra("fixture_sheets_checked", json!(sheets.load(std::sync::atomic::Ordering::Relaxed)));
+}
+
 pub fn check(rep: &Report) {
+    corpus_header_rows(rep);
     let t = crate::thorough(&rep.tier);
-    rep.rule("sheets = every subset of rows 0..4 non-empty (32 patterns) x column offset {0,2} x 4 formats (xlsx / xlsb also with a stale dimension record, xlsx with implicit references, ods with the first row in table:table-header-rows and the rest in table:table-rows); options = FirstNonEmptyRow and Row(n) for n in {0..6, 65535, 65536, 1048576, u32::MAX}; histories = every sequence of <= 3 option settings over all 12 options, plus every sequence of 4 over {First, Row(1), Row(3), Row(65536)} (thorough: all sequences of 4 over all options), a read after every step on one reader; non-trivial = history with a Row(n) option on a non-empty sheet; distinct by (format, sheet, history)");
+    rep.rule("sheets = every subset of rows 0..4 non-empty (32 patterns) x column offset {0,2} x 4 formats (xlsx / xlsb also with a stale dimension record, xlsx with implicit references, ods with the first row in table:table-header-rows and the rest in table:table-rows); options = FirstNonEmptyRow and Row(n) for n in {0..6, 65535, 65536, 1048576, u32::MAX}; histories = every sequence of <= 3 option settings over all 12 options, plus every sequence of 4 over {First, Row(1), Row(3), Row(65536)} (thorough: all sequences of 4 over all options), a read after every step on one reader (xls: every option also handed over at construction through XlsOptions); plus, on every sheet of every fixture workbook of the repository that opens, Row(n) for n around its first and last used row against its own default read; non-trivial = history with a Row(n) option on a non-empty sheet; distinct by (format, sheet, history)");
     rep.assume("columns of the range under Row(n) are not constrained (the statement fixes only the first row and the cell values)");
     let ns: Vec<u32> = vec![0, 1, 2, 3, 4, 5, 6, 65535, 65536, 1_048_576, u32::MAX];
     let mut opts: Vec<Opt> = vec![Opt::First];
@@ -182,6 +229,26 @@ pub fn check(rep: &Report) {
             };
             local.push((hash_of(&(fmt, p, off, variant, format!("{h:?}"))), *p != 0 && last_n.is_some(), outcome));
         }
+        // xls: the option handed over at construction (XlsOptions::header_row) instead of through with_header_row
+        if *fmt == "xls" && *p != 32 {
+            for o in opts.iter() {
+                rep.eval(1);
+                let res = guarded(|| -> Result<Range<Data>, String> {
+                    let mut xo = calamine::XlsOptions::default();
+                    xo.header_row = match o { Opt::First => HeaderRow::FirstNonEmptyRow, Opt::Row(n) => HeaderRow::Row(*n) };
+                    let mut wb = Xls::new_with_options(Cursor::new(bytes.clone()), xo).map_err(|e| format!("open: {e:?}"))?;
+                    wb.worksheet_range("S").map_err(|e| format!("worksheet_range: {e:?}"))
+                });
+                let replay = || Replay { json: json!({"format": fmt, "row_pattern": p, "col_offset": off, "variant": variant, "history": [format!("{o:?}")], "option_given_at_construction": true}), files: vec![(fmt.to_string(), bytes.clone())] };
+                let c = match o { Opt::Row(n) => n_class(&g, *n), _ => "default" };
+                match &res {
+                    Err(pn) => rep.fail(&format!("xls/panic/{c}/at-construction"), &format!("panicked: {pn} (XlsOptions.header_row = {o:?})"), replay),
+                    Ok(Err(e)) => rep.fail(&format!("xls/error/{c}/at-construction"), &format!("{e} (XlsOptions.header_row = {o:?})"), replay),
+                    Ok(Ok(r)) => if let Err((kind, detail)) = check_read(r, &g, *o) { rep.fail(&format!("xls/{kind}/{c}/option-at-construction"), &format!("XlsOptions.header_row = {o:?}: {detail}"), replay); },
+                }
+                local.push((hash_of(&(fmt, p, off, variant, format!("ctor {o:?}"))), *p != 0, hash_of(&format!("{:?}", res.as_ref().map(|r| r.as_ref().map(crate::model::sheet::range_digest).map_err(|e| e.clone())).map_err(|e| e.clone())))));
+            }
+        }
         rep.cases_bulk(&local);
         crate::engine::crumb::clear();
     });
@@ -197,6 +264,7 @@ pub fn check(rep: &Report) {
 pub fn replay(path: &str) -> i32 {
     let Ok(s) = std::fs::read_to_string(path) else { return 2 };
     let v: serde_json::Value = serde_json::from_str(&s).unwrap();
+    if let Some(f) = v.get("fixture").and_then(|f| f.as_str()) { println!("fixture tests/{f} of the repository: {}\n(re-run the check to observe it again; the file is not copied)", v["what"]); return 0; }
     let fmt = v["format"].as_str().unwrap().to_string();
     let g = model(&fmt, v["row_pattern"].as_u64().unwrap() as u32, v["col_offset"].as_u64().unwrap() as u32);
     let h: Vec<Opt> = v["history"].as_array().unwrap().iter().map(|o| { let s = o.as_str().unwrap(); if s.starts_with("Row(") { Opt::Row(s[4..s.len() - 1].parse().unwrap()) } else { Opt::First } }).collect();
